@@ -1,3 +1,3 @@
 From Coq Require Import Extraction ExtrOcamlBasic.
 From Glb Require Import Check.C02.
-Extraction "model.ml" check_case verdict_ok.
+Extraction "model.ml" check_case verdict_ok check_threshold.
